@@ -1859,8 +1859,6 @@ func (ls *LState) PCall(nargs, nret int, errfunc *LFunction) (err error) {
 				err = rcv.(*ApiError)
 			}
 			if errfunc != nil {
-				ls.Push(errfunc)
-				ls.Push(err.(*ApiError).Object)
 				ls.Panic = panicWithoutTraceback
 				defer func() {
 					ls.Panic = oldpanic
@@ -1884,6 +1882,10 @@ func (ls *LState) PCall(nargs, nret int, errfunc *LFunction) (err error) {
 						ls.reg.SetTop(base)
 					}
 				}()
+				// pushed under the recover above: when a full registry is what
+				// failed, there is no room for the handler call either
+				ls.Push(errfunc)
+				ls.Push(err.(*ApiError).Object)
 				ls.Call(1, 1)
 				err = newApiError(ApiErrorError, ls.Get(-1))
 			} else if len(err.(*ApiError).StackTrace) == 0 {
